@@ -10,6 +10,7 @@ generated data; `pairwise_ranks.tsv` must be identical up to the order of tie ro
 from __future__ import annotations
 
 import hashlib
+import json
 import os
 import random
 import subprocess
@@ -284,6 +285,85 @@ def noise_probe(hashseed):
     return 'ERROR ' + out[-300:]
 
 
+SESSION_PROBE = r'''
+import json, sys, random
+sys.path.insert(0, sys.argv[1])
+import pandas as pd
+import stream_common as sc
+from outrank import core_ranking as cr
+from pathos.multiprocessing import ProcessingPool
+spec = json.loads(sys.argv[2])
+r = random.Random(spec['seed'])
+n = spec['rows']
+lab = [str(r.randrange(2)) for _ in range(n)]
+df = pd.DataFrame({'f0': [str(r.randrange(5)) for _ in range(n)], 'label': lab, 'f1': [str((int(l) + r.randrange(3)) % 4) for l in lab],
+                   'f2': [str(r.randrange(9)) for _ in range(n)], 'f3': [str(r.randrange(3)) for _ in range(n)]})
+class PB:
+    def set_description(self, *a, **k): pass
+    def update(self, *a, **k): pass
+out = []
+for kw, ncpus in spec['calls']:
+    args = sc.make_args(**kw)
+    random.seed(7)
+    cr.GLOBAL_PRIOR_COMB_COUNTS.clear()
+    pool = ProcessingPool(ncpus)
+    res = cr.mixed_rank_graph(df, args, pool, PB())
+    out.append(sorted([a, b, float(s)] for a, b, s in res.triplet_scores))
+print('SESSION', json.dumps(out))
+'''
+
+
+def session_probe(spec):
+    """a LIBRARY session with real pathos pools in one fresh process: mixed_rank_graph called several times with the given
+    (arguments, pool size); returns the sorted triplets of every call"""
+    env = dict(os.environ)
+    env['PYTHONPATH'] = REPO
+    env['PYTHONHASHSEED'] = '0'
+    p = subprocess.run([sys.executable, '-c', SESSION_PROBE, os.path.dirname(os.path.abspath(__file__)), json.dumps(spec)], env=env,
+                       stdout=subprocess.PIPE, stderr=subprocess.STDOUT, timeout=900)
+    out = p.stdout.decode('utf-8', 'replace')
+    for ln in out.splitlines():
+        if ln.startswith('SESSION '):
+            return json.loads(ln[8:])
+    return 'ERROR ' + out[-400:]
+
+
+def session_specs(rng):
+    base = dict(heuristic='MI-numba-randomized', target_ranking_only='False', label_column='label')
+    a = dict(base, mi_stratified_sampling_ratio=1.0)
+    b = dict(base, mi_stratified_sampling_ratio=rng.choice([0.5, 0.25]))
+    c = dict(base, heuristic='MI-numba-3mr', mi_stratified_sampling_ratio=b['mi_stratified_sampling_ratio'])
+    seed, rows = rng.randrange(10 ** 6), 1500
+    # the judged calls are the LAST TWO of each session: identical input and arguments, pool sizes 1 and 2; the earlier calls
+    # (other arguments) warm up the size-1 pool's cached worker.  The reference is the same pair of calls in a session of its own.
+    return [{'seed': seed, 'rows': rows, 'calls': [[a, 1], [b, 1], [b, 2]]},
+            {'seed': seed, 'rows': rows, 'calls': [[b, 1], [b, 2]]},
+            {'seed': seed, 'rows': rows, 'calls': [[b, 2], [c, 1], [c, 2]]},
+            {'seed': seed, 'rows': rows, 'calls': [[c, 1], [c, 2]]}]
+
+
+def judge_sessions(ctx: Ctx, specs, results):
+    for k in (0, 2):
+        warm, fresh = results[k], results[k + 1]
+        ctx.evaluations += 1
+        ctx.count('library-session(real pathos pools)')
+        case = {'session': [specs[k], specs[k + 1]]}
+        if isinstance(warm, str) or isinstance(fresh, str):
+            ctx.notes.append(f'session probe could not run: {str(warm)[:200]} / {str(fresh)[:200]}')
+            continue
+        ctx.traces += 1
+        args_desc = {kk: v for kk, v in specs[k]['calls'][-1][0].items() if kk in ('heuristic', 'mi_stratified_sampling_ratio', 'target_ranking_only')}
+        one, two = warm[-2], warm[-1]
+        if one != two:
+            d = next((x, y) for x, y in zip(one, two) if x != y)
+            ctx.oracle_fail('pool-size:library-session', f'mixed_rank_graph on one {specs[k]["rows"]}-row frame with {args_desc}, called twice in one process after '
+                            f'{len(specs[k]["calls"]) - 2} earlier call(s) with other arguments: ProcessingPool(1) gives {d[0]}, ProcessingPool(2) gives {d[1]}', case)
+        elif [one, two] != fresh[-2:]:
+            d = next((x, y) for x, y in zip(one, fresh[-2]) if x != y)
+            ctx.oracle_fail('fresh-run:library-session', f'mixed_rank_graph with {args_desc}: after earlier calls with other arguments in the same process the scores are '
+                            f'{d[0]}, in a process of its own {d[1]}', case)
+
+
 def judge_cli(ctx: Ctx, cfg, matrix, results):
     """results[i] = (rows|None, log) of matrix[i]"""
     name = cfg['name']
@@ -340,6 +420,9 @@ def part2_start(cfgs, thorough, only=None):
         cfg['_matrix'] = [tuple(x) for x in (cfg.get('matrix') or cli_matrix(cfg['name'], thorough))]
         futs.append([ex.submit(sc.cli_run, cfg['data'], hs, 900, bool(cfg.get('shim')), num_threads=t, **cfg['args']) for t, hs in cfg['_matrix']])
     probes = [ex.submit(noise_probe, hs) for hs in ('0', '1', 'random')]
+    if not only:
+        sspecs = session_specs(random.Random(hashlib.md5(repr([c['name'] for c in cfgs]).encode() + cfgs[0]['data'][:64].encode()).hexdigest()))
+        probes += [(sspecs, [ex.submit(session_probe, sp) for sp in sspecs])]
     return ex, sel, futs, probes
 
 
@@ -348,7 +431,10 @@ def part2_finish(ctx: Ctx, handle):
     try:
         for cfg, fs in zip(sel, futs):
             judge_cli(ctx, cfg, cfg['_matrix'], [f.result() for f in fs])
-        pr = [f.result() for f in probes]
+        sess = [p for p in probes if isinstance(p, tuple)]
+        pr = [f.result() for f in probes if not isinstance(f, tuple)]
+        for sspecs, fs in sess:
+            judge_sessions(ctx, sspecs, [f.result() for f in fs])
     finally:
         ex.shutdown(wait=True)
     ctx.evaluations += len(pr)
@@ -396,6 +482,11 @@ def search(ctx: Ctx):
 
 def replay(ctx: Ctx, payload):
     case = payload['case']
+    if 'session' in case:
+        specs = case['session']
+        res = [session_probe(sp) for sp in specs]
+        judge_sessions(ctx, [specs[0], specs[1], specs[0], specs[1]][:2] + [specs[0], specs[1]], [res[0], res[1], res[0], res[1]])
+        return
     if 'cli' in case:
         cfg = {'name': case['cli'], 'args': case['args'], 'data': case['data'], 'matrix': [tuple(x) for x in case['matrix']],
                'shim': case['cli'].endswith('-shimmed')}
